@@ -99,7 +99,7 @@ def sweep(ctx, pool, configs):
 
 
 def run(ctx):
-    ctx.lean_stage([], ["Verif.Props.C08", "Verif.Props.TokenRules", "Verif.Props.RegenLeaf", "Verif.Props.RegenLeaf2", "Verif.Props.TokenRules2"])
+    ctx.lean_stage([], ["Verif.Props.C08", "Verif.Props.TokenRules", "Verif.Props.RegenLeaf", "Verif.Props.RegenLeaf2", "Verif.Props.TokenRules2", "Verif.Props.TokenRules2.Md023", "Verif.Props.TokenRules2.Md030", "Verif.Props.TokenRules2.Md037", "Verif.Props.TokenRules2.Md044", "Verif.Props.TokenRules2.Md046", "Verif.Props.TokenRules2.Interfere", "Verif.Props.TokenRules2.InterfereRows"])
     import blocks
     blocks.tokenrules2(ctx)    # mdX_fix_only_style for MD023 MD030 MD037 MD044 MD046 (what may change, by how much); proved counter-examples where the fix destroys text
     blocks.regenleaf(ctx)      # regen_field_local: changing one style field of one leaf token changes only that token's own contribution to the regenerated text
